@@ -617,6 +617,23 @@ func c15Snapshot(k *kernel.K, e *logEx, p *logPass, desc string) {
 				k.Fail("C15.snapshot_equal", params, "%s: snapshot status %d", desc, m.Status)
 			}
 		}
+		// framing: the snapshot frames the message the way the original was framed
+		wantFraming := e.req.Framing
+		if side == "res" {
+			wantFraming = e.resp.Framing
+			if e.resp.Status == 204 || e.req.Method == "HEAD" {
+				wantFraming = "none"
+			}
+		} else if wantFraming == "" {
+			wantFraming = "none"
+		}
+		gotFraming := m.Framing
+		if gotFraming == "cl" && m.DeclaredCL == 0 && wantFraming == "none" {
+			gotFraming = "none" // an explicit zero length and no body are the same message
+		}
+		if gotFraming != wantFraming && !(wantFraming == "close" && gotFraming == "cl") {
+			k.Fail("C15.snapshot_equal", params, "%s: %s snapshot is framed %q (declared length %d), the message was framed %q", desc, side, m.Framing, m.DeclaredCL, wantFraming)
+		}
 		if d := firstDiff(m.Body, wantBody); d >= 0 {
 			k.Fail("C15.snapshot_equal", params, "%s: %s snapshot body differs from the message at offset %d (%d vs %d bytes)", desc, side, d, len(m.Body), len(wantBody))
 		}
